@@ -70,7 +70,7 @@ func init() {
 			}
 			return map[string][]string{"combo": want, "flip": {"to-system:plainctx", "to-system:sysctx", "to-ordinary:sysctx", "to-system-migrate:plainctx", "to-system-migrate:sysctx", "child-create-over-system-parent:plainctx"},
 				"system_context_via": {"GetSystemContext", "NewSystemMutateContext", "GetSystemContext twice", "NewSystemMutateContext over a system context", "ordinary after UpdateContext"},
-				"tolerant": {"update:plainctx:sysent", "patch:plainctx:sysent", "delete:plainctx:sysent"}}
+				"tolerant":           {"update:plainctx:sysent", "patch:plainctx:sysent", "delete:plainctx:sysent"}}
 		},
 	})
 }
